@@ -306,6 +306,18 @@ def r5_3(ctx):
             nsarg = a[1] if cal == 'yr_hash_table_iterate' else (a[3] if 'raw_key' in cal and len(a) > 3
                                                                  else a[2] if len(a) > 2 else None)
             ns = cu.strip_casts(f, nsarg) if nsarg is not None else None
+            if ns is not None and ns['k'] == 'ref' and ns.get('dk') == 'local':
+                # a local that only ever holds a namespace's name
+                defs = []
+                for n_ in f.all_nodes():
+                    if n_['k'] == 'decl' and n_.get('name') == ns['name'] and n_.get('c'):
+                        defs.append(cu.strip_casts(f, f.kid(n_, 0)))
+                    elif n_['k'] == 'bin' and n_['op'] == '=':
+                        l_ = cu.strip_casts(f, f.kid(n_, 0))
+                        if l_ is not None and l_['k'] == 'ref' and l_['name'] == ns['name']:
+                            defs.append(cu.strip_casts(f, f.kid(n_, 1)))
+                if defs and all(d is not None and d['k'] == 'member' and d['fld'] == 'name' for d in defs):
+                    ns = defs[0]
             if ns is not None and cu.const_of(ns) == 0:
                 kind = 'NULL'
             elif ns is not None and ns['k'] == 'member' and ns['fld'] == 'name':
